@@ -3,6 +3,7 @@ import theta_rules as T
 import tuple_rules as U
 import chains
 import generic_lints
+import c19_rules
 import twins
 
 
@@ -19,6 +20,7 @@ def run(facts, tier):
         ("union reset", T.builder_reset, 2, "reset() restores the starting theta; the union's cached theta is re-read after the table reset"),
         ("theta writes", T.theta_writes, 5, "theta monotone"),
         ("duplicates/emptiness", T.emptiness_and_duplicates, 3, "insert only after a failed find (Theta and Tuple update paths)"),
+        ("reset completeness", lambda fa: c19_rules.reset_completeness(fa, ['update_tuple_sketch','theta_update_sketch_base','tuple_union','theta_union_base']), 8, "every field a mutator modifies is re-initialised by reset() (a reused object equals a fresh one); reviewed exceptions are configuration fields"),
         ("tautologies", lambda fa: generic_lints.tautologies(fa, ('theta/', 'tuple/')), 2, "no comparison / assignment / min-max with two identical operands, no if-else with identical arms"),
         ("duplicate operands", lambda fa: generic_lints.duplicate_conjuncts(fa, ('theta/', 'tuple/')), 2, "no logical chain tests the same operand twice (copy-paste of the wrong peer)"),
         ("forwarding peers", lambda fa: generic_lints.forwarding_peers(fa, ('theta/', 'tuple/')), 18, "one-statement typed overloads forward to an overload of their own name, never to the head of a sibling family (wrong peer)"),
